@@ -163,62 +163,71 @@ impl<const N: usize> Sut for RingFullSyncSut<N> {
 
 pub struct PoolSut<A: BoundedOgreAllocator<u64> + Send + Sync, const N: usize> {
     a: A,
+    /// per logical thread: the ids it owns, oldest first
+    owned: Mutex<Vec<Vec<u32>>>,
 }
 
 fn mk_pool_atomic<const N: usize>() -> Arc<dyn Sut> {
-    Arc::new(PoolSut::<AllocatorAtomicArray<u64, N>, N> { a: AllocatorAtomicArray::<u64, N>::new() })
+    Arc::new(PoolSut::<AllocatorAtomicArray<u64, N>, N> { a: AllocatorAtomicArray::<u64, N>::new(), owned: Mutex::new(vec![vec![]; 16]) })
 }
 fn mk_pool_fullsync<const N: usize>() -> Arc<dyn Sut> {
-    Arc::new(PoolSut::<AllocatorFullSyncArray<u64, N>, N> { a: AllocatorFullSyncArray::<u64, N>::new() })
+    Arc::new(PoolSut::<AllocatorFullSyncArray<u64, N>, N> { a: AllocatorFullSyncArray::<u64, N>::new(), owned: Mutex::new(vec![vec![]; 16]) })
 }
 
 impl<A: BoundedOgreAllocator<u64> + Send + Sync, const N: usize> Sut for PoolSut<A, N> {
-    fn exec(&self, _ctx: &Ctx, op: &Value) -> Value {
+    fn resolve(&self, t: usize, op: &Value) -> Value {
+        // `free` / `free_ref`: release the oldest (or, with "last": the newest) slot this thread owns -- a no-op if it owns none
+        let name = op["op"].as_str().unwrap_or("");
+        if name == "free" || name == "free_ref" {
+            let mut o = self.owned.lock().unwrap();
+            let mine = &mut o[t];
+            if mine.is_empty() {
+                return json!({"op": "nop", "v": 0, "i": 0});
+            }
+            let id = if op["last"].as_bool().unwrap_or(false) { mine.pop().unwrap() } else { mine.remove(0) };
+            return json!({"op": if name == "free" { "dealloc_id" } else { "dealloc_ref" }, "v": id, "i": 0});
+        }
+        op.clone()
+    }
+
+    fn exec(&self, ctx: &Ctx, op: &Value) -> Value {
         match op["op"].as_str().unwrap() {
+            "nop" => json!({"ok": true, "v": 0}),
             "alloc" => match self.a.alloc_ref() {
                 Some((r, id)) => {
                     let back = self.a.id_from_ref(r);
                     let again = self.a.ref_from_id(id) as *mut u64 as usize == r as *mut u64 as usize;
-                    json!({"ok": true, "id": id, "bij": back == id && again})
+                    self.owned.lock().unwrap()[ctx.t].push(id);
+                    json!({"ok": true, "v": id, "bij": back == id && again && (id as usize) < N})
                 }
-                None => json!({"ok": false, "id": 0, "bij": true}),
+                None => json!({"ok": false, "v": 0, "bij": true}),
             },
             "alloc_with" => {
                 let v = op["v"].as_u64().unwrap();
                 match self.a.alloc_with(|slot| *slot = v) {
-                    Some((r, id)) => json!({"ok": true, "id": id, "bij": *r == v}),
-                    None => json!({"ok": false, "id": 0, "bij": true}),
+                    Some((r, id)) => {
+                        self.owned.lock().unwrap()[ctx.t].push(id);
+                        json!({"ok": true, "v": id, "bij": *r == v && (id as usize) < N})
+                    }
+                    None => json!({"ok": false, "v": 0, "bij": true}),
                 }
             }
             "dealloc_id" => {
-                self.a.dealloc_id(op["id"].as_u64().unwrap() as u32);
-                json!({"ok": true})
+                self.a.dealloc_id(op["v"].as_u64().unwrap() as u32);
+                json!({"ok": true, "v": 0})
             }
             "dealloc_ref" => {
-                let id = op["id"].as_u64().unwrap() as u32;
+                let id = op["v"].as_u64().unwrap() as u32;
                 let r = self.a.ref_from_id(id);
                 self.a.dealloc_ref(r);
-                json!({"ok": true})
+                json!({"ok": true, "v": 0})
             }
-            // allocates, then releases the slot it got (if any) -- lets scripts be written without knowing ids
-            "alloc_free" => match self.a.alloc_ref() {
-                Some((_r, id)) => {
-                    if op["by_ref"].as_bool().unwrap_or(false) {
-                        let r = self.a.ref_from_id(id);
-                        self.a.dealloc_ref(r);
-                    } else {
-                        self.a.dealloc_id(id);
-                    }
-                    json!({"ok": true, "id": id})
-                }
-                None => json!({"ok": false, "id": 0}),
-            },
             other => panic!("pool: unknown op {other}"),
         }
     }
 
     fn finish(&self, _stalled: bool) -> Value {
-        // how many slots can be allocated now (must be POOL_SIZE - outstanding)
+        // how many slots can be allocated now (must be POOL_SIZE - outstanding), in the order the free list hands them out
         let mut ids = vec![];
         while let Some((_r, id)) = self.a.alloc_ref() {
             ids.push(id);
@@ -226,6 +235,15 @@ impl<A: BoundedOgreAllocator<u64> + Send + Sync, const N: usize> Sut for PoolSut
                 break;
             }
         }
-        json!({"free": ids})
+        // exhaustive id <-> reference bijection over the whole pool
+        let mut addrs = std::collections::HashSet::new();
+        let mut bij = true;
+        for id in 0..N as u32 {
+            let r = self.a.ref_from_id(id);
+            bij &= self.a.id_from_ref(r) == id;
+            addrs.insert(r as *mut u64 as usize);
+        }
+        bij &= addrs.len() == N;
+        json!({"hard": false, "len": ids.len(), "drained": ids, "bij": bij})
     }
 }
